@@ -35,4 +35,20 @@ PROPS = {
         "assumes": ["std::io::Read/Chain/Cursor/BufReader and Vec operations as modelled in Reader.v (validated by the rd stream)",
                     "sizes below 2^62 (no usize overflow in pos_in_buf + valid_len + chunk_size); wrapping position/mark are modelled"],
     },
+    "C11": {
+        "streams": [
+            {"name": "wr", "module": "wr", "quick": 2500, "thorough": 40000, "profiles": ["debug", "release"],
+             "oracle_prefix": "o_wr"},
+            {"name": "o_wr", "module": "wr", "quick": 2500, "thorough": 40000, "kind": "oracle",
+             "profiles": ["debug"], "args": {"prefix": "o_wr"}},
+        ],
+        "rule": "random histories over write/write_all/write_all_defer_err (lengths biased around the free space of the 16 KiB "
+                "buffer, up to 3x capacity), ascii_digits for all 12 integer types incl. MIN/MAX, buf_write_ptr+advance_unchecked, "
+                "flush, flush_defer_err, check_io_error, drop; sinks: accept-all, short writes, Interrupted, Ok(0), failing at call k; "
+                "non-trivial = at least 5 operations; distinct by case text",
+        "theorems_note": "Props/C11.v: exact delivery after flush/drop for every non-failing sink schedule; in-order selection and "
+                         "capacity invariant for every sink; parked-error life cycle; canonical decimal text",
+        "assumes": ["std Write::write_all loop, Vec::with_capacity(16384) giving capacity exactly 16384 and never reallocating, "
+                    "itoap producing `decimal v` (all validated by the wr stream)"],
+    },
 }
